@@ -112,6 +112,12 @@ def check_transparent(case, res, out, *, identity=True, calls=True):
         if items and p['end'] == 'refused' and not p['out']:
             out['probes']['items_refused'] = 1
             continue            # loud refusal before the first delivery
+        if items and p['end'] == 'refused' and r['end'] == 'refused' and \
+                p['out'] == r['out'][:len(p['out'])]:
+            # the sequential pipeline itself refuses items() part-way (mixed
+            # keyed / unkeyed inputs): a loud refusal after a correct prefix
+            out['probes']['items_refused_midstream'] = 1
+            continue
         if p['out'] != r['out']:
             n = min(len(p['out']), len(r['out']))
             i = next((j for j in range(n) if p['out'][j] != r['out'][j]), n)
